@@ -29,18 +29,24 @@ def lift(I, x):
     return I.lift(x)
 
 
-def leftovers(v: Value, out=None):
+def leftovers(v: Value, out=None, seen=None):
+    """strings starting with '@' anywhere in a (possibly cyclic) tree"""
     out = [] if out is None else out
+    seen = set() if seen is None else seen
+    if id(v) in seen:
+        return out
     if isinstance(v, Str):
         if v.atoms and isinstance(v.atoms[0], Lit) and v.atoms[0].startswith("@"):
             out.append(v.render())
     elif isinstance(v, (ListV, TupleV)):
+        seen.add(id(v))
         for x in v.items:
-            leftovers(x, out)
+            leftovers(x, out, seen)
     elif isinstance(v, DictV):
+        seen.add(id(v))
         for k, x in v.pairs:
-            leftovers(k, out)
-            leftovers(x, out)
+            leftovers(k, out, seen)
+            leftovers(x, out, seen)
     return out
 
 
